@@ -553,6 +553,18 @@ func runProperty(repo, prop, tier, evid, knownPath string) int {
 		fmt.Println("unknown property", prop)
 		return 2
 	}
+	// watchdog: the analysis of today's tree takes seconds; a change that makes some enumeration explode must end in
+	// a report, not in a check that never returns
+	limit := 15 * time.Minute
+	if tier == "thorough" {
+		limit = 40 * time.Minute
+	}
+	go func() {
+		time.Sleep(limit)
+		r := &RuleResult{Rule: "UNDECIDED", Kind: "ENGINE", Doc: "every construct reachable from the API was classified by the engine"}
+		r.fail("analysis-timeout", "", fmt.Sprintf("the analysis did not finish within %v on this tree (an enumeration explodes): nothing is decided", limit))
+		os.Exit(finish(prop, tier, evid, known, []*RuleResult{r}, nil, "analysis timeout", start, nil))
+	}()
 	prog, err := loadProgram(repo, "", nil)
 	if err != nil {
 		r := &RuleResult{Rule: "LOAD", Kind: "LOAD", Doc: "the working tree loads and type-checks"}
@@ -690,7 +702,6 @@ func thoroughReload(repo, prop string, base []*RuleResult) []*RuleResult {
 	}
 	return []*RuleResult{r}
 }
-
 
 // enclosingFunc: the declared function whose body contains n.
 func (c *RC) enclosingFunc(n ast.Node) *FuncInfo {
